@@ -31,7 +31,12 @@ def atoms(fn, inp):
                 # comparisons of the input's length against something (loop bounds `i < input.length` excluded)
                 other = r if s(l) == inp + ".length" else l
                 if not (other.get("type") == "Identifier" and other["value"] in ("i", "j")):
-                    out.add(("length",))
+                    # which way the length is bounded: a value may be rejected for being too SHORT, too LONG or not
+                    # of the exact length - three different reasons, each needs its counterpart in the reporter
+                    op = n["operator"]
+                    if s(r) == inp + ".length":
+                        op = {"<": ">", ">": "<", "<=": ">=", ">=": "<="}.get(op, op)
+                    out.add(("length", "short" if op in ("<", "<=") else "long" if op in (">", ">=") else "exact"))
         if t == "CallExpression" and s(n["callee"]) == "Array.isArray" and n["arguments"] and s(n["arguments"][0]["expression"]) == inp:
             out.add(("isArray",))
         if t == "MemberExpression" and n["property"].get("value") == "disallowExtraProperties":
